@@ -47,8 +47,8 @@ import (
 func TestMain(m *testing.M) { evid.Main(m, "C12") }
 
 const (
-	ioBound      = 10 * time.Second // a wait that only ends this way means the server hung
-	releaseBound = 6 * time.Second
+	ioBound      = 30 * time.Second // a wait that only ends this way means the server hung
+	releaseBound = 20 * time.Second
 	pathLive     = "/c12/live"
 	pathMLive    = "/c12/mlive"
 	pathMissing  = "/c12/missing"
@@ -101,19 +101,11 @@ func sdpBody(kind string) string {
 func getWorld(t evid.TB) *world {
 	worldOnce.Do(func() {
 		w := &world{}
-		w.s = srv.Start(srv.Options{})
+		// a long net timeout: the helper publisher's session must survive a starved machine
+		w.s = srv.Start(srv.Options{NetTimeout: 30 * time.Minute})
 		w.live = srv.PublishStream(pathLive, sdpAV)
-		c, err := rtspc.Dial(w.s.Addr(), ioBound)
-		if err != nil {
-			t.Fatalf("machinery: dial publisher: %v", err)
-		}
-		if _, err := c.Record(w.s.RTSP(pathMLive), sdpAV); err != nil {
-			t.Fatalf("machinery: publishing %s through RECORD failed: %v", pathMLive, err)
-		}
-		w.pub = c
-		st := media.Get(pathMLive)
-		if st == nil || st.Multicastable() == nil {
-			t.Fatalf("machinery: %s is not multicast-capable", pathMLive)
+		if err := w.publishMLive(); err != nil {
+			t.Fatalf("machinery: %v", err)
 		}
 		w.idleConns = srv.RtspConns()
 		w.env = env{Live: map[string]bool{pathLive: true, pathMLive: true}, Multicast: map[string]bool{pathMLive: true}}
@@ -123,6 +115,65 @@ func getWorld(t evid.TB) *world {
 		t.Fatalf("machinery: world failed to start")
 	}
 	return theWorld
+}
+
+// retry repeats a connection attempt that failed for reasons of the machine (ephemeral
+// ports in TIME_WAIT, a starved accept loop …) for up to three minutes; what is
+// judged starts only once the connection exists.
+func retry[T any](what string, f func() (T, error)) (T, error) {
+	deadline := time.Now().Add(3 * time.Minute)
+	wait := time.Millisecond
+	for {
+		v, err := f()
+		if err == nil || time.Now().After(deadline) {
+			if err != nil {
+				err = fmt.Errorf("%s still failing after 3 minutes: %w", what, err)
+			}
+			return v, err
+		}
+		time.Sleep(wait)
+		if wait < 200*time.Millisecond {
+			wait *= 2
+		}
+	}
+}
+
+// publishMLive (re)creates the helper publisher of /c12/mlive.
+func (w *world) publishMLive() error {
+	c, err := retry("dial publisher", func() (*rtspc.Client, error) { return rtspc.Dial(w.s.Addr(), ioBound) })
+	if err != nil {
+		return err
+	}
+	if _, err := c.Record(w.s.RTSP(pathMLive), sdpAV); err != nil {
+		c.Close()
+		return fmt.Errorf("publishing %s through RECORD failed: %v", pathMLive, err)
+	}
+	if old := w.pub; old != nil {
+		old.Close()
+	}
+	w.pub = c
+	st := media.Get(pathMLive)
+	if st == nil || st.Multicastable() == nil {
+		return fmt.Errorf("%s is not multicast-capable", pathMLive)
+	}
+	return nil
+}
+
+// heal puts the two live streams back if the machine (not a case) lost them, e.g. the
+// publisher's session timed out while the process was starved.
+func (w *world) heal() error {
+	if media.Get(pathLive) != w.live {
+		w.live = srv.PublishStream(pathLive, sdpAV)
+		evid.Class("machinery: live stream re-published")
+	}
+	if media.Get(pathMLive) == nil {
+		evid.Class("machinery: multicast live stream re-published")
+		if err := w.publishMLive(); err != nil {
+			return err
+		}
+		w.idleConns = srv.RtspConns() + srv.WspConns()
+	}
+	return nil
 }
 
 // pump publishes k small video and k small audio packets on both live streams.
@@ -161,7 +212,7 @@ type plan struct {
 	Transport   string `json:"transport"` // tcp | ws
 	WSPathSym   string `json:"ws_path,omitempty"`
 	Steps       []step `json:"steps"`
-	End         string `json:"end"` // close | halfclose
+	End         string `json:"end"` // close | halfclose | reset (TCP RST)
 	CheckFrames bool   `json:"check_frames"`
 	WSPData     bool   `json:"wsp_data_channel,omitempty"` // wsp: also open the data channel
 }
@@ -319,7 +370,7 @@ func genPlan(t *rapid.T, transport string) *plan {
 	if transport == "tcp" && !muxKnown[p.Steps[0].Method] {
 		p.Steps = append([]step{{Method: "OPTIONS", PathSym: "live"}}, p.Steps...)
 	}
-	p.End = rapid.SampledFrom([]string{"close", "close", "halfclose"}).Draw(t, "end")
+	p.End = rapid.SampledFrom([]string{"close", "close", "halfclose", "reset", "reset"}).Draw(t, "end")
 	p.CheckFrames = rapid.IntRange(0, 3).Draw(t, "checkFrames") == 0
 	return p
 }
@@ -423,6 +474,9 @@ func (w *world) runPlan(p *plan) (out outcome, rep *report, fail *failure, err e
 	m := newModel(wsPath)
 	m.WSP = p.Transport == "wsp"
 
+	if err := w.heal(); err != nil {
+		return out, rep, nil, fmt.Errorf("machinery: %v", err)
+	}
 	// a case that failed half-way (e.g. while rapid shrinks) may still be closing: give the
 	// server a moment to get back to the idle world before the baseline is taken
 	srv.WaitFor(2*time.Second, func() bool {
@@ -438,20 +492,17 @@ func (w *world) runPlan(p *plan) (out outcome, rep *report, fail *failure, err e
 	w.panicOnce.Do(func() { w.sessionPanics = w.s.LogCount("session panic") })
 	panics0 := w.sessionPanics
 	cpanics0 := w.s.LogCount("consume routine panic")
-	if base[pathLive] < 0 || base[pathMLive] < 0 {
-		return out, rep, nil, fmt.Errorf("machinery: a live stream vanished (live=%d mlive=%d)", base[pathLive], base[pathMLive])
-	}
 
 	var c link
 	var wl *wspLink
 	switch p.Transport {
 	case "ws":
-		c, err = rtspc.DialWS(w.s.WS(wsPath), ioBound, nil)
+		c, err = retry("ws dial", func() (*rtspc.Client, error) { return rtspc.DialWS(w.s.WS(wsPath), ioBound, nil) })
 	case "wsp":
-		wl, err = dialWSP(w.s.WS(wsPath), ioBound, p.WSPData)
+		wl, err = retry("wsp dial", func() (*wspLink, error) { return dialWSP(w.s.WS(wsPath), ioBound, p.WSPData) })
 		c = wl
 	default:
-		c, err = rtspc.Dial(w.s.Addr(), ioBound)
+		c, err = retry("tcp dial", func() (*rtspc.Client, error) { return rtspc.Dial(w.s.Addr(), ioBound) })
 	}
 	if err != nil {
 		return out, rep, nil, fmt.Errorf("machinery: dial: %v", err)
@@ -471,26 +522,33 @@ func (w *world) runPlan(p *plan) (out outcome, rep *report, fail *failure, err e
 		return nil
 	}
 
-	// two UDP sockets (RTP/RTCP of the video track; audio uses the next pair, unbound) to catch early media
+	// a UDP socket on the client port announced for the video track's RTP, to catch early
+	// media (any free port will do; the pairing with an even number is a convention the
+	// server does not depend on). Without a socket the case still runs, unobserved on UDP.
 	var udp *net.UDPConn
-	udpPort := 0
-	for try := 0; try < 20 && udp == nil; try++ {
+	udpPort := 40000
+	for try := 0; try < 500 && udp == nil; try++ {
 		u, e := net.ListenUDP("udp4", &net.UDPAddr{IP: net.IPv4(127, 0, 0, 1)})
 		if e != nil {
+			time.Sleep(time.Millisecond)
 			continue
 		}
-		if port := u.LocalAddr().(*net.UDPAddr).Port; port%2 == 0 && port < 65000 {
+		if port := u.LocalAddr().(*net.UDPAddr).Port; port < 65000 {
 			udp, udpPort = u, port
 		} else {
 			u.Close()
 		}
 	}
 	if udp == nil {
-		return out, rep, nil, errors.New("machinery: no even UDP port")
+		evid.Class("machinery: no UDP socket, early media on UDP not observed in this case")
+	} else {
+		defer udp.Close()
 	}
-	defer udp.Close()
 	udpGot := func() int {
 		n := 0
+		if udp == nil {
+			return 0
+		}
 		buf := make([]byte, 2048)
 		for {
 			udp.SetReadDeadline(time.Now())
@@ -786,7 +844,11 @@ func (w *world) runPlan(p *plan) (out outcome, rep *report, fail *failure, err e
 				}
 			}
 		}
-		c.Close()
+		if rc, ok := c.(*rtspc.Client); ok && p.End == "reset" {
+			rc.Abort() // disconnect by RST
+		} else {
+			c.Close()
+		}
 	}
 	*m = *newModel(wsPath)
 	if f := checkResources("after the connection ended"); f != nil {
@@ -828,6 +890,7 @@ func methodClass(m string) string {
 func record(p *plan, out outcome) {
 	evid.Eval(1)
 	evid.Class("transport " + p.Transport)
+	evid.Class("end " + p.End)
 	for _, s := range p.Steps {
 		evid.Class("req " + methodClass(s.Method))
 		if s.Method == "SETUP" {
